@@ -702,4 +702,203 @@ theorem handlePubrec_extra (e : Engine) (a : Ack) (hinv : Inv e) (h : Extra fals
           · exact h
         · exact h
 
+/-! ### sequences of completions, write completion -/
+
+theorem completeSuccess_keeps (e : Engine) (id : Nat) (c : Option Completion) :
+    (e.completeSuccess id c).1.current = e.current ∧ (e.completeSuccess id c).1.highQ = e.highQ ∧
+    (e.completeSuccess id c).1.pendingWC = e.pendingWC ∧
+    ((e.completeSuccess id c).1.state = e.state ∨ (e.state = .pendingDisconnect ∧ (e.completeSuccess id c).1.state = .halted)) := by
+  refine ⟨?_, ?_, (completeSuccess_ops e id c).2.1, ?_⟩
+  · cases ho : e.op? id with
+    | none => simp only [Engine.completeSuccess, ho]
+    | some o =>
+      obtain ⟨s', hv, _⟩ := completeSuccess_view e id c o ho
+      exact congrArg View.current hv
+  · cases ho : e.op? id with
+    | none => simp only [Engine.completeSuccess, ho]
+    | some o =>
+      obtain ⟨s', hv, _⟩ := completeSuccess_view e id c o ho
+      exact congrArg View.highQ hv
+  · cases ho : e.op? id with
+    | none => simp only [Engine.completeSuccess, ho]; exact .inl trivial
+    | some o =>
+      obtain ⟨s', hv, hs⟩ := completeSuccess_view e id c o ho
+      have : (e.completeSuccess id c).1.state = s' := congrArg View.state hv
+      rw [this]; exact hs
+
+theorem pc_of_step {s s' : PState} (h : s' = s ∨ (s = .pendingDisconnect ∧ s' = .halted)) :
+    (s' = .connected ∨ s' = .pendingConnack) → s = s' := by
+  intro hh
+  rcases h with a | ⟨_, a⟩
+  · exact a.symm
+  · rw [a] at hh; rcases hh with b | b <;> cases b
+
+/-- a batch of operations that are neither being written nor queued for the handshake completes -/
+theorem succeedAll_extra : ∀ (ids : List Nat) (e : Engine), Extra false [] e.view →
+    (∀ id ∈ ids, e.current ≠ some id) → (∀ id ∈ ids, id ∉ e.highQ ++ e.pendingWC) → Extra false [] (e.succeedAll ids).1.view := by
+  intro ids e h hc hq
+  unfold Engine.succeedAll
+  have : ∀ (l : List Nat) (acc : Engine × Res), Extra false [] acc.1.view →
+      (∀ id ∈ l, acc.1.current ≠ some id) → (∀ id ∈ l, id ∉ acc.1.highQ ++ acc.1.pendingWC) →
+      Extra false [] (l.foldl (fun (acc : Engine × Res) id => match acc.1.completeSuccess id none with | (e', r) => (e', acc.2.fold r)) acc).1.view := by
+    intro l
+    induction l with
+    | nil => intro acc h _ _; exact h
+    | cons x xs ih =>
+      intro acc h hc hq
+      obtain ⟨k1, k2, k3, _⟩ := completeSuccess_keeps acc.1 x none
+      refine ih _ (completeSuccess_extra acc.1 x none h (fun _ => hc x (List.mem_cons_self ..))
+        (fun _ hm => absurd hm (hq x (List.mem_cons_self ..)))) ?_ ?_
+      · intro id hi; show (acc.1.completeSuccess x none).1.current ≠ _; rw [k1]; exact hc id (List.mem_cons_of_mem _ hi)
+      · intro id hi; show id ∉ (acc.1.completeSuccess x none).1.highQ ++ (acc.1.completeSuccess x none).1.pendingWC
+        rw [k2, k3]; exact hq id (List.mem_cons_of_mem _ hi)
+  exact this ids (e, .ok) h hc hq
+
+theorem Extra.halt {W : List Nat} {v : View} (h : Extra false W v) : Extra false W { v with state := .halted } :=
+  { h with
+    cur := fun hs => by rcases hs with a | a <;> cases a
+    h1e := fun hs => by cases hs
+    op := fun hs => by rcases hs with a | a <;> cases a }
+
+theorem handleWriteCompletion_extra (e : Engine) (h : Extra false [] e.view) : Extra false [] e.handleWriteCompletion.1.view := by
+  unfold Engine.handleWriteCompletion
+  split
+  · exact h
+  · split
+    · exact h.halt
+    · simp only []
+      have h0 : Extra false [] ({ e with pendingWrite := false, pendingWC := [] } : Engine).view := by
+        show Extra false [] { e.view with pendingWC := [] }
+        exact { h with
+          x1a := fun _ id _ hm => by cases hm
+          x2 := fun id hi => ⟨List.not_mem_nil, (h.x2 id hi).2⟩
+          x3 := fun id hi => ⟨List.not_mem_nil, (h.x3 id hi).2⟩
+          h1e := fun hs => by
+            obtain ⟨a, b⟩ := h.h1e hs
+            refine ⟨fun id hi => ?_, b⟩
+            simp only [List.append_nil] at hi
+            exact a id (List.mem_append_left _ hi) }
+      refine succeedAll_extra e.pendingWC _ h0 ?_ ?_
+      · intro id hi hc
+        exact h.x1a rfl id hc hi
+      · intro id hi hm
+        simp only [List.append_nil] at hm
+        exact (h.x3 id hm).1 hi
+
+/-! ### keep-alive, ack timeouts, connection opened -/
+
+theorem serviceKeepAlive_extra (e : Engine) (hinv : Inv e) (h : Extra false [] e.view) : Extra false [] e.serviceKeepAlive.1.view := by
+  unfold Engine.serviceKeepAlive
+  split
+  · split <;> exact h
+  · split
+    · split
+      · obtain ⟨e3, he3, hx⟩ := internalHigh_extra e .pingreq true hinv h
+        simp only []
+        rw [he3]
+        simp only []
+        split
+        · exact hx
+        · simp only []
+          split <;> exact hx
+      · exact h
+    · exact h
+
+theorem foldl_earliest_mem (l : List (Nat × Nat)) (init : Option (Nat × Nat)) (x : Nat × Nat)
+    (h : l.foldl (fun best x => match best with | none => some x | some b => if x.2 < b.2 then some x else some b) init = some x) :
+    x ∈ l ∨ init = some x := by
+  induction l generalizing init with
+  | nil => right; simpa using h
+  | cons y ys ih =>
+    simp only [List.foldl] at h
+    rcases ih _ h with h1 | h1
+    · left; exact List.mem_cons_of_mem _ h1
+    · cases init with
+      | none => simp at h1; left; rw [h1]; exact List.mem_cons_self ..
+      | some b =>
+        simp only at h1
+        split at h1
+        · simp at h1; left; rw [h1]; exact List.mem_cons_self ..
+        · right; exact h1
+
+theorem nextDueTimeout_not_current (e : Engine) (id d : Nat) (h : e.nextDueTimeout = some (id, d)) : e.current ≠ some id := by
+  rcases foldl_earliest_mem _ none (id, d) h with hm | hm
+  · have := (List.mem_filter.mp hm).2
+    simpa using this
+  · cases hm
+
+theorem processAckTimeouts_extra : ∀ (fuel : Nat) (e : Engine), Extra false [] e.view → e.state ≠ .pendingConnack →
+    Extra false [] (Engine.processAckTimeouts fuel e).1.view
+  | 0, e, h, _ => h
+  | fuel + 1, e, h, hs => by
+    unfold Engine.processAckTimeouts
+    cases hn : e.nextDueTimeout with
+    | none => exact h
+    | some x =>
+      obtain ⟨id, d⟩ := x
+      simp only []
+      split
+      · have hnc := nextDueTimeout_not_current e id d hn
+        have h1 : Extra false [] ({ e with timeouts := e.timeouts.erase (id, d) } : Engine).view := by
+          show Extra false [] { e.view with noTimeouts := (e.timeouts.erase (id, d)).isEmpty }
+          exact { h with x1a := h.x1a }
+        have h2 := completeFailure_extra ({ e with timeouts := e.timeouts.erase (id, d) } : Engine) id "AckTimeout" h1
+          (fun _ => hnc) (fun hpc => absurd hpc hs)
+        have hk := (completeFailure_keeps ({ e with timeouts := e.timeouts.erase (id, d) } : Engine) id "AckTimeout").2.2.2.2.2
+        have hs2 : (({ e with timeouts := e.timeouts.erase (id, d) } : Engine).completeFailure id "AckTimeout").1.state ≠ .pendingConnack := by
+          rcases hk with a | ⟨_, a⟩
+          · rw [a]; exact hs
+          · rw [a]; intro hc; cases hc
+        exact processAckTimeouts_extra fuel _ h2 hs2
+      · exact h
+
+/-- the handshake starts: nothing is being written, the CONNECT is the only thing in flight, the deadline is armed -/
+theorem Extra.startHandshake {v : View} (h : Extra false [] v) (hd : v.state = .disconnected)
+    (hex : ∀ id ∈ v.highQ ++ v.pendingWC, ∃ o, v.ops.lookup id = some o) :
+    Extra false [] { v with state := .pendingConnack, current := none, connackSet := true } :=
+  { h with
+    x1a := fun _ id hc => by cases hc
+    x1b := fun _ id hc => by cases hc
+    x1c := fun _ id hc => by cases hc
+    x4 := fun id hc => by cases hc
+    x6 := fun id hc => by cases hc
+    cur := fun _ id hc => by cases hc
+    h1e := fun _ => ⟨fun id hi => .inr (hex id hi), rfl⟩
+    op := fun _ id hi o ho => h.op (.inl hd) id hi o ho }
+
+theorem handleOpened_extra (e : Engine) (deadline : Nat) (hinv : Inv e) (h : Extra false [] e.view) :
+    Extra false [] (e.handleOpened deadline).1.view := by
+  unfold Engine.handleOpened
+  split
+  · exact h.halt
+  · rename_i hst
+    have hd : e.state = .disconnected := by simpa using hst
+    obtain ⟨hc0, hh0, hp0, hn0, hw0, _⟩ := hinv.2.2.1 hd
+    simp only []
+    generalize hp : ({ e with state := .pendingConnack, current := none, pendingWrite := false, dec := {} } : Engine).createConnect = p
+    have hA := createOp_extra e p none hinv h
+    have hfr := fresh_after_create e p none (by simp) hinv
+    obtain ⟨f1, f2, f3, f4, f5, f6⟩ := createOp_fields e p none
+    have hB : Extra false [] { (e.createOp p none).1.view with highQ := if true then e.nextOpId :: (e.createOp p none).1.highQ else (e.createOp p none).1.highQ ++ [e.nextOpId] } :=
+      hA.pushHigh e.nextOpId true ⟨hfr.1, hfr.2.1, hfr.2.2.2.1, hfr.2.2.2.2.2.2⟩ (.inl hfr.2.2.1) (.inl hfr.2.2.2.2.1) (fun _ => ⟨_, f6⟩)
+    have hC := hB.startHandshake (show (e.createOp p none).1.state = .disconnected by rw [f5]; exact hd) (by
+      intro id hi
+      have hq : (e.createOp p none).1.highQ = [] := by rw [f4]; exact hh0
+      have hw : (e.createOp p none).1.pendingWC = [] := hw0
+      simp only [↓reduceIte] at hi
+      have hi2 : id ∈ e.nextOpId :: (e.createOp p none).1.highQ ++ (e.createOp p none).1.pendingWC := hi
+      rw [hq, hw] at hi2
+      simp only [List.append_nil, List.mem_singleton] at hi2
+      subst hi2
+      exact ⟨_, f6⟩)
+    -- the engine the handler builds has exactly this view
+    have hop : ((({ e with state := .pendingConnack, current := none, pendingWrite := false, dec := {} } : Engine).createOp p none).1.op? e.nextOpId).isNone = false := by
+      have : (({ e with state := .pendingConnack, current := none, pendingWrite := false, dec := {} } : Engine).createOp p none).1.ops.lookup e.nextOpId = some { id := e.nextOpId, packet := p, user := none } :=
+        (createOp_fields ({ e with state := .pendingConnack, current := none, pendingWrite := false, dec := {} } : Engine) p none).2.2.2.2.2
+      simp only [Engine.op?, this]; rfl
+    have hid : (({ e with state := .pendingConnack, current := none, pendingWrite := false, dec := {} } : Engine).createOp p none).2 = e.nextOpId := rfl
+    rw [hid]
+    simp only [Engine.enqueue, hop, Bool.false_eq_true, ↓reduceIte]
+    exact hC
+
 end GV
